@@ -621,13 +621,16 @@ def normalize(it, v):
 def slice_bounds(it, n, lo, hi):
     """normalised (start, stop) terms for s[lo:hi], step 1; Python clamping semantics."""
 
-    def norm(x, default):
+    def norm(x, default, is_hi):
         if x is None:
             return default
         if isinstance(x, int) and not isinstance(x, bool):
             if x >= 0:
                 return z3.IntVal(x)
             v = n + z3.IntVal(x)
+            if is_hi:
+                # s[a:-k]: a stop below the start yields the empty sequence with or without clamping
+                return v
             return z3.If(v < 0, z3.IntVal(0), v)
         t = int_term(x)
         if it.ctx.pure:
@@ -637,7 +640,7 @@ def slice_bounds(it, n, lo, hi):
             return z3.If(v < 0, z3.IntVal(0), v)
         return t
 
-    return norm(lo, z3.IntVal(0)), norm(hi, n)
+    return norm(lo, z3.IntVal(0), False), norm(hi, n, True)
 
 
 def slice_(it, s, lo, hi, step=None):
